@@ -98,6 +98,8 @@ impl<T: Low> Next<&T> for Minimum {
 
 impl Reset for Minimum {
     fn reset(&mut self) {
+        self.min_index = 0;
+        self.cur_index = 0;
         for i in 0..self.period {
             self.deque[i] = f64::INFINITY;
         }
